@@ -102,7 +102,12 @@ class Scenario:
                 kind = rng.choice(["read_encrypted"] * 6 + ["get_size", "get_all_encoding_parameters"])
                 plan.append({"kind": kind, "j": rng.randint(1, self.nchunks + 1) if kind == "read_encrypted" else 1,
                              "fault": rng.choice(["raise", "disconnect"])})
-        plan += [None, None]
+        self.joint = pre_mode != "all" and rng.random() < 0.3
+        if self.joint:
+            # two clients push the same new file through the one helper at the same time (no injected faults)
+            plan = ["joint", None]
+        else:
+            plan += [None, None]
         if rng.random() < 0.3:
             plan.append("delete")
             plan.append(None)
@@ -117,12 +122,18 @@ class Scenario:
                 present = sorted({shnum for d in g.shares(self.si).values() for shnum in d})
                 self.events.append({"ev": "lose_shares", "present": present})
                 continue
+            if step == "joint":
+                self.one_upload(None, joint=True)
+                continue
             self.one_upload(step)
         g.close()
         self.twin.close()
         return {"consts": {"Size": self.size, "Chunk": self.chunk, "N": self.n, "K": self.k, "pre": pre, "idx": self.idx,
                            "servers": self.nservers, "seg": self.seg},
-                "events": self.events}
+                "events": self.events} if not self.joint else {
+            "consts": {"Size": self.size, "Chunk": self.chunk, "N": self.n, "K": self.k, "pre": pre, "idx": self.idx,
+                       "servers": self.nservers, "seg": self.seg, "joint": True},
+            "events": self.events}
 
     # every delivered call passes here
     def observe(self, e):
@@ -156,7 +167,7 @@ class Scenario:
         elif e["kind"] == "object" and e["meth"] == "write":
             self.writes += 1
 
-    def one_upload(self, fault):
+    def one_upload(self, fault, joint=False):
         g = self.g
         self.recording = True
         self.allocated = 0
@@ -171,14 +182,28 @@ class Scenario:
                     return ("call", 0, fault["fault"])
             return ("call", 0, None)
         g.policy = policy
+        if joint:
+            order = self.rng.choice(["fifo", "random"])
+            if order == "random":
+                g.policy = lambda grid: ("call", self.rng.randrange(len(grid.pending)), None)
         st0 = self.helper.get_stats()
         ev = {"ev": "end"}
         try:
-            res = g.run(g.uploader.upload(upload.Data(self.data, convergence=self.conv)))
+            if joint:
+                from twisted.internet import defer
+                up2 = upload.Uploader()
+                up2.name = "uploader-b"
+                up2.setServiceParent(g.client)
+                up2._helper = g.uploader._helper
+                d1 = g.uploader.upload(upload.Data(self.data, convergence=self.conv))
+                d2 = up2.upload(upload.Data(self.data, convergence=self.conv))
+                res, res2 = g.run(defer.gatherResults([d1, d2], consumeErrors=True))
+            else:
+                res = res2 = g.run(g.uploader.upload(upload.Data(self.data, convergence=self.conv)))
             g.drain()
             ev["outcome"] = "ok"
             cap = res.get_uri()
-            ev["capeq"] = (cap == self.tcap)
+            ev["capeq"] = (cap == self.tcap) and (res2.get_uri() == self.tcap)
             ev["vcapeq"] = (uri.from_string(cap).get_verify_cap().to_string() == self.tvcap)
             ev["reported_pushed"] = int(res.get_pushed_shares())
         except Hang:
